@@ -2,6 +2,7 @@
    the model compute, on every well-formed list, the Spec's function of the
    denotation; the order laws and compression invariance follow. *)
 From Coq Require Import List ZArith Bool Lia.
+From RtoscV Require Osc.OscModel Osc.OscEncProofs.
 From RtoscV Require Import ArgVal.AvModel ArgVal.AvSpec ArgVal.AvOrder ArgVal.AvSim ArgVal.AvSingle.
 Import ListNotations.
 Local Open Scope Z_scope.
@@ -354,27 +355,130 @@ Proof.
     + eexists. split; [reflexivity|]. constructor; auto. cbn. eauto.
 Qed.
 
-Lemma heads_types : forall heads vs, Forall2 head_of heads vs ->
+(* the strchr list of arg-val.c is has_reserved of rtosc.c *)
+Lemma has_reserved_kind : forall t, has_reserved t = has_payload t.
+Proof.
+  intros. unfold has_reserved, has_payload, OscModel.kind_of.
+  destruct (t =? 105), (t =? 115), (t =? 98), (t =? 102), (t =? 104), (t =? 116),
+           (t =? 100), (t =? 83), (t =? 114), (t =? 109), (t =? 99); reflexivity.
+Qed.
+
+Lemma heads_payloads : forall heads vs, Forall2 head_of heads vs ->
   map slot_type heads = map vtype vs /\
-  map slot_val (filter (fun s => has_reserved (slot_type s)) heads) = payloads vs.
+  arg_payloads (map slot_type heads)
+               (map slot_val (filter (fun s => has_reserved (slot_type s)) heads)) = payloads_of vs.
 Proof.
   intros heads vs H. induction H as [|s v heads vs Hs Hr [IH1 IH2]]; [split; reflexivity|].
   destruct v as [t sv | t es].
-  - cbn in Hs. subst s. cbn [map slot_type vtype filter payloads]. split; [now rewrite IH1|].
+  - cbn in Hs. subst s. cbn [map slot_type vtype filter payloads_of arg_payloads].
+    split; [now rewrite IH1|]. rewrite <- has_reserved_kind.
     destruct (has_reserved t); cbn [map slot_val]; now rewrite IH2.
-  - destruct Hs as (len & ->). cbn [map slot_type vtype filter payloads]. split; [now rewrite IH1|].
+  - destruct Hs as (len & ->). cbn [map slot_type vtype filter payloads_of arg_payloads].
+    split; [now rewrite IH1|].
     change (has_reserved 97) with false. cbv iota. exact IH2.
 Qed.
 
-Theorem avmessage_spec : forall F addr a va,
-  denote F a va -> avmessage F addr a (Zlength a) = message_of addr va.
+Definition res_opt {A} (r : OscModel.res A) : option A :=
+  match r with OscModel.Ok a => Some a | _ => None end.
+
+(* rtosc_avmessage is rtosc_amessage on the tags and payloads of the written-out values *)
+Theorem avmessage_spec : forall F buf addr a va,
+  denote F a va ->
+  avmessage F buf addr a (Zlength a) =
+  match payloads_of va with
+  | Some ps => res_opt (OscModel.amessage buf addr (map vtype va) ps)
+  | None => None
+  end.
 Proof.
-  intros F addr a va Hd. unfold avmessage, avmessage_gen.
+  intros F buf addr a va Hd. unfold avmessage, avmessage_gen.
   pose proof (itr_den_top F a va Hd) as Hi.
   rewrite (count_vals_sim F (fuel_of a) _ _ va Hi).
   - destruct (collect_sim F _ va _ Hi) as (heads & Hc & Hh). rewrite Hc.
-    destruct (heads_types _ _ Hh) as [H1 H2]. rewrite H1, H2. reflexivity.
+    destruct (heads_payloads _ _ Hh) as [H1 H2]. rewrite H2, H1.
+    destruct (payloads_of va); [|reflexivity].
+    destruct (OscModel.amessage buf addr (map vtype va) l); reflexivity.
   - pose proof (need_length va). pose proof (need_lt_fuel _ _ _ Hd). lia.
+Qed.
+
+(* ---- ... and that is the OSC 1.0 encoding (C01's theorem applies) ------------------------------ *)
+Definition top_ok (v : value) : Prop :=
+  match v with Val t sv => simple_ok t sv | Arr _ _ => True end.
+
+Lemma range_from_top_ok : forall F dt dv st sv k i es,
+  range_from F dt dv st sv i k = Some es -> Forall top_ok es.
+Proof.
+  intros F dt dv st sv. induction k as [|k IH]; intros i es H; cbn [range_from] in H.
+  - inversion H. constructor.
+  - destruct (range_spec F dt dv st sv i) as [[t v]|] eqn:E; [|discriminate].
+    destruct (range_from F dt dv st sv (i + 1) k) as [r|] eqn:Er; [|discriminate].
+    inversion H; subst. constructor; [|eapply IH; eauto].
+    cbn. eapply range_spec_ok; eauto.
+Qed.
+
+Lemma denote_top_ok : forall F a va, denote F a va -> Forall top_ok va.
+Proof.
+  intros F a va H.
+  induction H using denote_mut with (P0 := fun e v _ => top_ok v).
+  - constructor.
+  - constructor; auto.
+  - apply Forall_app. split; auto. apply Forall_forall. intros x Hx.
+    apply repeat_spec in Hx. now subst.
+  - apply Forall_app. split; auto. eapply range_from_top_ok; eauto.
+  - exact s.
+  - exact I.
+Qed.
+
+Lemma payload_ok : forall t sv p, simple_ok t sv -> arg_payload t sv = Some p ->
+  OscModel.payload_fits (OscModel.kind_of t) p = true /\ OscEncProofs.payload_wf p.
+Proof.
+  intros t sv p H E. destruct H; cbn in E; try discriminate;
+    try (inversion E; subst p; split; [reflexivity | exact I]).
+  - (* m *) destruct m as [|a [|b [|c [|d [|? ?]]]]]; try discriminate.
+    inversion E; subst p. split; [reflexivity | exact I].
+  - destruct s as [s|]; [|discriminate]. inversion E; subst p. split; [reflexivity | exact I].
+  - destruct s as [s|]; [|discriminate]. inversion E; subst p. split; [reflexivity | exact I].
+  - inversion E; subst p. split; [reflexivity|]. cbn. split.
+    + apply Zlength_nonneg'.
+    + unfold OscModel.zlen. now rewrite Zlength_correct.
+Qed.
+
+Lemma payloads_args_wf : forall vs, Forall top_ok vs -> forall ps,
+  payloads_of vs = Some ps -> OscEncProofs.args_wf (map vtype vs) ps.
+Proof.
+  intros vs H. induction H as [|v vs Hv Hr IH]; intros ps E.
+  - inversion E. split; [reflexivity | constructor].
+  - destruct v as [t sv | t es]; cbn [payloads_of map vtype] in *.
+    + unfold has_payload in E. unfold OscEncProofs.args_wf. cbn [OscModel.args_match].
+      destruct (OscModel.kind_of t) eqn:K;
+        try (destruct (arg_payload t sv) as [p|] eqn:Ep; [|discriminate];
+             destruct (payloads_of vs) as [ps'|] eqn:Er; [|discriminate];
+             inversion E; subst ps; clear E;
+             destruct (payload_ok t sv p Hv Ep) as [Hf Hw]; rewrite K in Hf;
+             destruct (IH ps' eq_refl) as [Hm Hws];
+             split; [rewrite Hf, Hm; reflexivity | constructor; auto]).
+      exact (IH ps E).
+    + unfold OscEncProofs.args_wf. cbn [OscModel.args_match].
+      change (OscModel.kind_of 97) with OscModel.K0. cbv iota. exact (IH ps E).
+Qed.
+
+Theorem avmessage_is_osc : forall F addr a va ps,
+  denote F a va -> payloads_of va = Some ps ->
+  let enc := OscModel.enc_spec addr (map vtype va) ps in
+  avmessage F None addr a (Zlength a) = Some (OscModel.zlen enc, None) /\
+  forall buf,
+    avmessage F (Some buf) addr a (Zlength a) =
+    if OscModel.zlen buf <? OscModel.zlen enc
+    then Some (0, Some (OscModel.zeros (OscModel.zlen buf)))
+    else Some (OscModel.zlen enc, Some (enc ++ skipn (length enc) buf)).
+Proof.
+  intros F addr a va ps Hd Hp enc.
+  pose proof (payloads_args_wf va (denote_top_ok F a va Hd) ps Hp) as Hwf.
+  destruct (OscEncProofs.amessage_spec addr (map vtype va) ps Hwf) as [HN HS]. fold enc in HN, HS.
+  unfold OscModel.byte in *.
+  split.
+  - rewrite (avmessage_spec F None addr a va Hd), Hp, HN. reflexivity.
+  - intros buf. rewrite (avmessage_spec F (Some buf) addr a va Hd), Hp, (HS buf).
+    destruct (OscModel.zlen buf <? OscModel.zlen enc); reflexivity.
 Qed.
 
 (* ---- the laws, on the model's functions --------------------------------------------------------- *)
@@ -436,7 +540,7 @@ Theorem law_compress : forall a a' v b vb addr,
   cmp a b = cmp a' b /\ cmp b a = cmp b a' /\ eq a b = eq a' b /\ eq b a = eq b a' /\
   cmp a a' = Some 0 /\ eq a a' = Some true /\
   iterate F a (Zlength a) = iterate F a' (Zlength a') /\
-  avmessage F addr a (Zlength a) = avmessage F addr a' (Zlength a').
+  forall buf, avmessage F buf addr a (Zlength a) = avmessage F buf addr a' (Zlength a').
 Proof.
   intros a a' v b vb addr Ha Ha' Hb Nv Nb.
   rewrite (vals_cmp_spec F a b v vb), (vals_cmp_spec F a' b v vb),
@@ -446,20 +550,29 @@ Proof.
           (vals_cmp_spec F a a' v v), (vals_eq_spec F a a' v v); auto.
   rewrite cmp_values_refl.
   rewrite (iterate_spec F a v), (iterate_spec F a' v); auto.
-  rewrite (avmessage_spec F addr a v), (avmessage_spec F addr a' v); auto.
-  repeat split; reflexivity.
+  repeat split; try reflexivity.
+  intros buf. rewrite (avmessage_spec F buf addr a v), (avmessage_spec F buf addr a' v); auto.
 Qed.
 
 (* iteration and message do not need the NaN exclusion *)
-Theorem law_compress_iter_msg : forall a a' v addr,
-  denote F a v -> denote F a' v ->
+Theorem law_compress_iter_msg : forall a a' v addr ps,
+  denote F a v -> denote F a' v -> payloads_of v = Some ps ->
+  let enc := OscModel.enc_spec addr (map vtype v) ps in
   iterate F a (Zlength a) = Some v /\ iterate F a' (Zlength a') = Some v /\
-  avmessage F addr a (Zlength a) = message_of addr v /\
-  avmessage F addr a' (Zlength a') = message_of addr v.
+  avmessage F None addr a (Zlength a) = Some (OscModel.zlen enc, None) /\
+  avmessage F None addr a' (Zlength a') = Some (OscModel.zlen enc, None) /\
+  forall buf, OscModel.zlen enc <= OscModel.zlen buf ->
+    avmessage F (Some buf) addr a (Zlength a) = Some (OscModel.zlen enc, Some (enc ++ skipn (length enc) buf)) /\
+    avmessage F (Some buf) addr a' (Zlength a') = Some (OscModel.zlen enc, Some (enc ++ skipn (length enc) buf)).
 Proof.
-  intros a a' v addr Ha Ha'.
+  intros a a' v addr ps Ha Ha' Hp enc.
   rewrite (iterate_spec F a v), (iterate_spec F a' v); auto.
-  rewrite (avmessage_spec F addr a v), (avmessage_spec F addr a' v); auto.
+  destruct (avmessage_is_osc F addr a v ps Ha Hp) as [N1 S1].
+  destruct (avmessage_is_osc F addr a' v ps Ha' Hp) as [N2 S2].
+  fold enc in N1, S1, N2, S2.
+  repeat split; auto; rewrite ?S1, ?S2;
+    (replace (OscModel.zlen buf <? OscModel.zlen enc) with false by (symmetry; apply Z.ltb_ge; lia));
+    reflexivity.
 Qed.
 End Laws.
 
